@@ -317,6 +317,13 @@ def panic_sites(prog, chk, reach):
                     ent["used"] += 1
                 why = "D6 reviewed: " + ent["reason"]
                 by = "table"
+        if why is None:
+            # D9: no feasible path reaches the site - the variants the paths to it have matched (a dispatcher that
+            # hands each family of an enum to its own helper, whose `_ => unreachable!()` arm covers the others),
+            # built (`Err(..)` then `?`) or been given leave no state in which its block is entered
+            from sa import vstate
+            if s.bb in vstate.of(body, prog).infeasible_blocks():
+                why = "D9 no feasible path reaches this block: the enum variants / Option and Result states established on every path to it exclude the edge that leads here (sa/vstate.py)"
         if why is not None:
             if by == "table":
                 n_table += 1
